@@ -218,6 +218,14 @@ func c07FifoBatch(seed int64, tier string, b int, out *childOut) {
 	var recs []rec
 	for k := 0; k < K; k++ {
 		c, pid := c07Case(seed, tier, b*K+k+r.Intn(1000)*K)
+		if k == K/2 {
+			// one record longer than any internal read buffer: a certificate
+			// login whose key id is several kilobytes long
+			c = vlib.GenSsh(r, "accepted-cert", -1, -1)
+			long := strings.Repeat("team=sre,role=admin;", 150+r.Intn(300))
+			c.Msg = strings.Replace(c.Msg, " ID "+c.Fields["keyid"]+" (serial", " ID "+long+" (serial", 1)
+			out.add("fifo_records_longer_than_4096", 1)
+		}
 		pad := strings.Repeat(" ", r.Intn(4))
 		stream = append(stream, []byte(pid+" "+pad+c.Msg+"\n")...)
 		recs = append(recs, rec{pid, c.Msg})
@@ -311,8 +319,15 @@ func c07AuditFifoBatch(seed int64, b int, out *childOut) {
 			}
 			lines = append(lines, vlib.AuUser(typ, ts, seq, plan.Pid[op.K], plan.Sid[op.K], "PAM:x", "success"))
 		case opExec:
+			args := []string{"ls", "-l", fmt.Sprintf("/tmp/%d", i)}
+			if i%3 == 0 { // an EXECVE record longer than any internal read buffer
+				for a := 0; a < 300+r.Intn(300); a++ {
+					args = append(args, fmt.Sprintf("argument-%05d", a))
+				}
+				out.add("audit_fifo_records_longer_than_4096", 1)
+			}
 			lines = append(lines, vlib.ExecSpec{TSms: ts, Seq: seq, PID: plan.Pid[op.K] + 10000, Ses: plan.Sid[op.K], Success: "yes",
-				Exe: "/usr/bin/ls", Args: []string{"ls", "-l", fmt.Sprintf("/tmp/%d", i)}, Paths: []string{"/usr/bin/ls"}, Cwd: "/root"}.Lines()...)
+				Exe: "/usr/bin/ls", Args: args, Paths: []string{"/usr/bin/ls"}, Cwd: "/root"}.Lines()...)
 		case opCD:
 			lines = append(lines, vlib.AuUser("CRED_DISP", ts, seq, plan.Pid[op.K], plan.Sid[op.K], "PAM:setcred", "success"))
 		}
@@ -441,11 +456,13 @@ func checkC07(r *vlib.Run) int {
 	r.Set("fifo_bytes_written", stats["fifo_bytes"])
 	r.Set("audit_fifo_batches", stats["audit_fifo_batches"])
 	r.Set("audit_fifo_records", stats["audit_fifo_records"])
+	r.Set("fifo_records_longer_than_4096", stats["fifo_records_longer_than_4096"]+stats["audit_fifo_records_longer_than_4096"])
 	r.Require(len(forms) == len(vlib.SshForms), "not every form compared")
 	r.Require(stats["pairs"] == nCb, "not every callback pair ran")
 	r.Require(stats["fifo_records"] >= nFifo*40*9/10, "too few FIFO records")
 	r.Require(stats["audit_fifo_batches"] >= nAuFifo*9/10, "too few audit FIFO batches")
 	r.Require(stats["messages_with_internal_double_space"] > 10, "no message with internal double space")
+	r.Require(stats["fifo_records_longer_than_4096"] > 10 && stats["audit_fifo_records_longer_than_4096"] > 10, "too few records longer than the read buffer went through the FIFOs")
 	total := stats["pairs"] + stats["audit_records"] + stats["fifo_batches"] + stats["audit_fifo_batches"]
 	r.Assumptions = []string{"both sides of every comparison are the real code; events are compared without uuid and clock reading",
 		"the rsyslog template frames records as '<pid> <msg>\\n' (contrib/rsyslog/config/rsyslog.d/journald.conf)"}
